@@ -22,7 +22,7 @@ TARGETS = ['boltons.urlutils.quote_path_part', 'boltons.urlutils.quote_query_par
            'boltons.urlutils.find_all_links']
 BOUNDS = {
     'quick': {'tables': 'all 256 byte values x 4 tables + all 2-hex-digit escapes', 'cells': 'one symbolic ASCII character in each of 6 components, full and minimal quoting',
-              'totality': 'URL(text) and find_all_links: 1 free character (2 in thorough) from all 128 ASCII characters + 18 non-ASCII class representatives, alone and inside 11 URL skeletons'},
+              'totality': 'URL(text) and find_all_links: 1 free character (2 in thorough) from all 128 ASCII characters + 22 non-ASCII class representatives, alone and inside 11 URL skeletons'},
     'thorough': {'cells': 'two adjacent symbolic ASCII characters', 'totality': 'length <= 3'},
 }
 ASSUMPTIONS = ['Unicode NFC normalisation is the identity on ASCII text (unicodedata.normalize is stubbed accordingly inside the cells)',
@@ -246,7 +246,7 @@ def cell_law(c1: str, c2: str) -> bool:
 # URL() hands the host to inet_pton / the idna codec (C and codec code): a symbolic string would be realised
 # to one model value there, so the characters are drawn by exhaustive forking from an explicit alphabet:
 # every ASCII character plus representatives of the non-ASCII classes that take different routes.
-NON_ASCII = ['\x80', '\xa0', '\xad', '\xdf', '\xe9', '\u0131', '\u0301', '\u200d', '\u2028', '\u3002', '\uff0e', '\uff61',
+NON_ASCII = ['\x80', '\xa0', '\xad', '\xb2', '\xbd', '\u0661', '\u2460', '\xdf', '\xe9', '\u0131', '\u0301', '\u200d', '\u2028', '\u3002', '\uff0e', '\uff61',
              '\ufb01', '\ud800', '\udfff', '\ufffd', '\U0001f600', '\U0010ffff']
 ALPHABET = [chr(i) for i in range(128)] + NON_ASCII
 SKELETONS = [lambda t: 'http://' + t, lambda t: 'http://h' + t + '/', lambda t: 'http://u@' + t + ':1/', lambda t: 'http://[' + t + ']/',
@@ -304,7 +304,7 @@ def links_total(n: int, k0: int, k1: int) -> bool:
     text = _draw(n, [k0, k1])
     which = pinval('ctx', 0)
     full = ['see http://a.b/' + text + ' and more', 'www.x' + text, 'x ' + text + '://h.com) y', 'http://[' + text + ']/',
-            'http://xn--' + text + '.de', 'ftp://u:p@h' + text + ':21/'][which]
+            'http://xn--' + text + '.de', 'ftp://u:p@h' + text + ':21/', 'see http://h.com:8' + text + ' ok'][which]
     with notrace():
         return _links_body(full)
 
@@ -328,6 +328,6 @@ def obligations(tier):
             obs.append(Ob('url_total', timeout=T, pins={'lmin': 2, 'lmax': 2, 'first': first}))
             for sk in range(len(SKELETONS)):
                 obs.append(Ob('url_total', timeout=T, pins={'lmin': 2, 'lmax': 2, 'skeleton': sk, 'first': first}))
-    for ctx in range(6):
+    for ctx in range(7):
         obs.append(Ob('links_total', timeout=T, pins={'lmax': 1 if q else 2, 'ctx': ctx}))
     return obs
